@@ -48,6 +48,28 @@ class Env:
         self.vars[name] = value
 
 
+_quant_cache = {}
+
+
+def has_quantifier(e):
+    stack = [e]
+    seen = set()
+    while stack:
+        t = stack.pop()
+        i = t.get_id()
+        if i in seen:
+            continue
+        seen.add(i)
+        if z3.is_quantifier(t):
+            return True
+        stack.extend(t.children())
+    return False
+
+
+class MergeAbort(Exception):
+    """Merge-mode evaluation met something it cannot merge (a real fork, an exception, a side effect)."""
+
+
 class Obligation:
     def __init__(self, name, goal, kind, nhyps, extra=None, lineno=None, note=None):
         self.name = name
@@ -62,7 +84,7 @@ class Obligation:
 class Interp:
     MAX_DEPTH = 40
 
-    def __init__(self, repo, schedule=(), contracts=None, cfg=None, feas_timeout_ms=4000):
+    def __init__(self, repo, schedule=(), contracts=None, cfg=None, feas_timeout_ms=1500):
         self.repo = repo
         self.schedule = list(schedule)
         self.taken = []
@@ -83,6 +105,9 @@ class Interp:
         self.used_contracts = set()
         self.notes = []
         self.class_consts = {}
+        self.pure = 0             # >0: inside a merge-mode evaluation (no recorded forks, no heap effects expected)
+        self.hyp_tags = []        # parallel to hyps: group tag of each hypothesis ('pc', 'enum', 'sigma', ...)
+        self.cur_tag = 'pc'
         self.globals = self._make_globals()
 
     # ------------------------------------------------------------------ hypotheses / decisions
@@ -92,7 +117,11 @@ class Interp:
                 raise PathEnd()
             return
         self.hyps.append(c)
-        self.solver.add(c)
+        self.hyp_tags.append(self.cur_tag)
+        # the feasibility solver only sees quantifier-free hypotheses: dropping hypotheses over-approximates the
+        # feasible paths (sound); obligations are discharged against the full set
+        if not has_quantifier(c):
+            self.solver.add(c)
 
     def feasible(self, c):
         self.solver_calls += 1
@@ -109,6 +138,14 @@ class Interp:
             return True
         if z3.is_false(cond):
             return False
+        if self.pure:
+            t = self.feasible(cond)
+            f = self.feasible(z3.Not(cond))
+            if t and not f:
+                return True
+            if f and not t:
+                return False
+            raise MergeAbort(f"fork on {cond} in merge mode ({label})")
         i = len(self.taken)
         if i < len(self.schedule):
             d = self.schedule[i]
@@ -131,6 +168,8 @@ class Interp:
         return d
 
     def choose(self, n, label=None):
+        if self.pure:
+            raise MergeAbort("nondeterministic choice in merge mode")
         i = len(self.taken)
         if i < len(self.schedule):
             d = self.schedule[i]
@@ -300,6 +339,15 @@ class Interp:
                 parts.append(self.format_value(self.ev(v.value, env)))
             else:
                 raise Unsupported("f-string part")
+        return self._mkstr_ite(parts)
+
+    def _mkstr_ite(self, parts):
+        """Concatenate text parts; an alternative (IteV) part distributes over the whole string."""
+        for i, p in enumerate(parts):
+            if isinstance(p, IteV):
+                a = self._mkstr_ite(parts[:i] + [p.a] + parts[i + 1:])
+                b = self._mkstr_ite(parts[:i] + [p.b] + parts[i + 1:])
+                return IteV(p.cond, a, b)
         return mkstr(parts)
 
     def format_value(self, x):
@@ -316,6 +364,8 @@ class Interp:
             return SegStr([NumHole(x)])
         if isinstance(x, NameV):
             return SegStr([OpaqueHole(x)])
+        if isinstance(x, IteV):
+            return IteV(x.cond, self.format_value(x.a), self.format_value(x.b))
         return SegStr([OpaqueHole(x)])
 
     def e_FormattedValue(self, e, env):
@@ -326,6 +376,8 @@ class Interp:
 
     def e_IfExp(self, e, env):
         c = self.ev(e.test, env)
+        if is_symnum(c):
+            c = (c != 0)
         if is_symbool(c):
             c = z3.simplify(c)
             if z3.is_true(c):
@@ -762,6 +814,8 @@ class Interp:
         if f.qual in self.contracts and not force_inline:
             self.used_contracts.add(f.qual)
             return self.contracts[f.qual](self, args, kwargs, node)
+        if f.qual.startswith('Unit.') and any(isinstance(a, IteV) for a in args):
+            return self._distribute_ite(f, args, kwargs, node)
         if self.depth >= self.MAX_DEPTH:
             raise Unsupported(f"call depth exceeded at {f.qual}")
         parent = f.closure if f.closure is not None else Env(None, self.globals)
@@ -779,6 +833,45 @@ class Interp:
         finally:
             self.depth -= 1
             self.call_stack.pop()
+
+    def _distribute_ite(self, f, args, kwargs, node):
+        """A (pure, static) Unit.* function applied to an alternative argument: evaluate per alternative, merge."""
+        from . import loops
+        i = next(j for j, a in enumerate(args) if isinstance(a, IteV))
+        alt = args[i]
+        c = z3.simplify(alt.cond)
+        t, fz = self.feasible(c), self.feasible(z3.Not(c))
+        if t and not fz:
+            return self.call_func(f, args[:i] + [alt.a] + args[i + 1:], kwargs, node)
+        if fz and not t:
+            return self.call_func(f, args[:i] + [alt.b] + args[i + 1:], kwargs, node)
+        outs = []
+        for cond, arm in ((c, alt.a), (z3.Not(c), alt.b)):
+            self.solver.push()
+            nh = len(self.hyps)
+            self.pure += 1
+            try:
+                self.assume(cond)
+                outs.append(self.call_func(f, args[:i] + [arm] + args[i + 1:], kwargs, node))
+            except MergeAbort as e:
+                raise Unsupported(f"{f.qual} on alternative arguments: {e}")
+            except Raised as e:
+                raise Unsupported(f"{f.qual} raises {e.cls} on one alternative of its arguments")
+            finally:
+                self.pure -= 1
+                del self.hyps[nh:]
+                del self.hyp_tags[nh:]
+                self.solver.pop()
+        return self._merge_result(c, outs[0], outs[1])
+
+    def _merge_result(self, c, a, b):
+        from . import loops
+        if isinstance(a, tuple) and isinstance(b, tuple) and len(a) == len(b):
+            return tuple(self._merge_result(c, x, y) for x, y in zip(a, b))
+        try:
+            return loops.merge_values(c, a, b)
+        except MergeAbort as e:
+            raise Unsupported(str(e))
 
     def call_lambda(self, f, args, kwargs, node=None):
         env = Env(f.closure)
@@ -890,6 +983,9 @@ class Interp:
 
     def s_If(self, st, env):
         c = self.ev(st.test, env)
+        if self.pure and is_symbool(c):
+            from . import loops
+            return loops.merge_if(self, st, c, env)
         if self.truth(c, f"if@{st.lineno} {ast.unparse(st.test)[:60]}"):
             self.exec_block(st.body, env)
         else:
